@@ -410,7 +410,7 @@ func TestVerifC05Tcp(t *testing.T) {
 			st.Emit("oracle tcp-source-ends-with-rst", c05RunSrcReset(t, r))
 			stats.Inc("copy.tcp-source-reset")
 		}
-		if i%60 == 7 {
+		if i%300 == 7 {
 			st.Emit("oracle grace-period-on-real-sockets", c05RunGraceReal(t, r))
 			stats.Inc("copy.grace-on-real-sockets")
 		}
@@ -450,6 +450,7 @@ func TestVerifC05Tcp(t *testing.T) {
 		}
 	}
 	stats.Add("copy.dst-reset-mid-transfer.copy-did-not-fail(inconclusive)", c05DstFailureInconclusive)
+	stats.Add("copy.grace-on-real-sockets.harness-too-slow(inconclusive)", c05GraceInconclusive)
 	stats.Write("c05tcp")
 }
 
@@ -521,7 +522,7 @@ func c05RunDstFailure(t *testing.T, r *VRand) string {
 	return "ok"
 }
 
-var c05DstFailureInconclusive int
+var c05DstFailureInconclusive, c05GraceInconclusive int
 
 // c05Watchdog runs f; a copy that has not returned after two minutes of wall clock (every case moves at
 // most a few MiB over loopback) is reported as a hang instead of stalling the whole check: the conns are
@@ -619,13 +620,17 @@ func c05RunGraceReal(t *testing.T, r *VRand) string {
 		rec = func(int64) {}
 	}
 	core := newRelayCore(left, right, defaultRelayCopyEngine{}, rec, rec)
-	core.halfCloseTimeout = 400 * time.Millisecond
+	const grace = 3 * time.Second
+	core.halfCloseTimeout = grace
 	_, _ = client.Write([]byte("request"))
+	t0 := time.Now()
 	_ = client.CloseWrite()
+	var answeredAfter atomic.Int64
 	go func() {
 		_ = upstream.SetReadDeadline(time.Now().Add(2 * time.Minute))
 		_, _ = io.ReadAll(upstream) // until the client's FIN has been passed on
 		_, _ = upstream.Write([]byte("inside-the-grace-period"))
+		answeredAfter.Store(int64(time.Since(t0)))
 		// …and never closes
 	}()
 	clCh := make(chan []byte, 1)
@@ -645,7 +650,14 @@ func c05RunGraceReal(t *testing.T, r *VRand) string {
 	}
 	_ = left.Close()
 	_ = right.Close()
-	if got := <-clCh; string(got) != "inside-the-grace-period" {
+	got := <-clCh
+	if d := time.Duration(answeredAfter.Load()); d == 0 || d > grace/2 {
+		// a loaded machine delayed the harness's own upstream past half of the grace period: whether the answer
+		// still made it says nothing about the code
+		c05GraceInconclusive++
+		return "ok"
+	}
+	if string(got) != "inside-the-grace-period" {
 		return fmt.Sprintf("bad:client-got-%q-after-its-half-close", got)
 	}
 	return "ok"
